@@ -159,7 +159,7 @@ def module_case(arg):
             elif out["sample"] is None and exp["try"]:
                 out["sample"] = {"struct": s.name, "leaf": ".".join(str(x) for _k, x in leaf["path"]), "value": eff,
                                  "before": data.hex(), "after": got_after.hex(), "mask_bits": exp["mask"][:16]}
-    out["viol"] = out["viol"][:40]
+    out["viol"] = common.cap_by_mech(out["viol"])
     return out
 
 
